@@ -39,7 +39,8 @@ def ids():
 
 def app(environ, start_response):
     path = environ["PATH_INFO"]
-    hdr = [("X-Pid", str(os.getpid())), ("X-Gen", GEN), ("X-Ids", ids()), ("X-Marker", str(environ.get("VERIF_MARKER", "")))]
+    hdr = [("X-Pid", str(os.getpid())), ("X-Gen", GEN), ("X-Ids", ids()), ("X-Marker", str(environ.get("VERIF_MARKER", ""))),
+           ("X-Extra", os.environ.get("VERIF_EXTRA", "<unset>"))]
     if path.startswith("/gate/"):
         gate("app:" + path[6:])
         body = b"gated-ok"
